@@ -25,15 +25,21 @@ CONSTANTS Reps,         \* replica ids, e.g. {1, 2}; replica 1 creates the graph
           AllowFail,    \* actions that fail after publishing (C07)
           AllowNoop,    \* commits of untouched transactions
           BootAll,      \* TRUE: every replica starts with the graph (init committed)
+          MaxRank,      \* ranks (id order positions) available to new commands
+          AllRanks,     \* new commands take every free rank (else only the least / greatest)
+          AllowBad,     \* malformed init deliveries (C10)
+          PubWeight, CommitWeight, SyncWeight,   \* simulation weights (copies of the sub-action)
+          ActWeight1,   \* simulation weight of starting an action on a single-head replica
           ActWeight     \* simulation weight of starting an action on a multi-head replica
 
 VARIABLES rep,     \* [Reps -> [exists, committed, heads, stamp, q]]   q = collapse queue (<<>> = idle)
           tx,      \* [Reps -> [Txns -> [open, rs, base, acc]]]
           hist,    \* sequence of step records (S2I)
           npoison, \* poison commands delivered so far
+          nbad,    \* malformed deliveries so far
           noise    \* no meaning: multiplies the successors of ActBegin (uniform simulation)
 
-vars == <<dag, rep, tx, hist, npoison, noise>>
+vars == <<dag, rep, tx, hist, npoison, nbad, noise>>
 
 RECURSIVE AscSeq(_)
 AscSeq(S) == IF S = {} THEN <<>>
@@ -54,6 +60,7 @@ Record(rec) == hist' = Append(hist, rec)
 Init ==
   /\ dag = << [par |-> <<>>, kind |-> "init", prio |-> 0, rank |-> 0, lca |-> 1, op |-> "n"] >>
   /\ noise = 0
+  /\ nbad = 0
   /\ rep = [r \in Reps |-> IF r = 1 \/ BootAll THEN [exists |-> TRUE, committed |-> {1}, heads |-> {1}, stamp |-> 0, q |-> <<>>]
                                     ELSE [exists |-> FALSE, committed |-> {}, heads |-> {}, stamp |-> 0, q |-> <<>>]]
   /\ tx = [r \in Reps |-> [t \in Txns |-> NoTx]]
@@ -63,14 +70,18 @@ Init ==
 Idle(r) == rep[r].q = <<>>
 Steps == Len(hist) < MaxSteps
 UsedRanks == {dag[c].rank : c \in Nodes}
+FreeRanks == (1..MaxRank) \ UsedRanks
+(* id order of a new command relative to the others: every free rank, or only the extremes *)
+RankChoice == IF AllRanks THEN FreeRanks
+              ELSE {CHOOSE x \in FreeRanks : \A y \in FreeRanks : x <= y, CHOOSE x \in FreeRanks : \A y \in FreeRanks : y <= x}
 
 --------------------------------------------------------------------------------
 (* action(): collapse the head set pairwise (sorted by id, fold through a queue), then publish *)
 ActBegin(r) ==
   /\ Steps /\ rep[r].exists /\ Idle(r) /\ Len(dag) < MaxCmds
   /\ rep' = [rep EXCEPT ![r].q = SortedById(rep[r].heads)]
-  /\ noise' \in 1..(IF Cardinality(rep[r].heads) >= 2 THEN ActWeight ELSE 1)
-  /\ UNCHANGED <<dag, tx, hist, npoison>>
+  /\ noise' = noise
+  /\ UNCHANGED <<dag, tx, hist, npoison, nbad>>
 
 FindMerge(l, r) == {m \in Nodes : IsMerge(m) /\ ParSet(m) = {l, r}}
 
@@ -84,7 +95,7 @@ ActMerge(r) ==
           /\ dag' = Append(dag, [par |-> IF IdLess(l, rr) THEN <<l, rr>> ELSE <<rr, l>>, kind |-> "merge",
                                  prio |-> 0, rank |-> 0, lca |-> Lca({l, rr}), op |-> "n"])
           /\ rep' = [rep EXCEPT ![r].q = Append(rest, Len(dag) + 1)]
-  /\ UNCHANGED <<tx, hist, npoison, noise>>
+  /\ UNCHANGED <<tx, hist, npoison, nbad, noise>>
 
 (* nodes of the collapse that r has not committed yet: the merges the fold wrote *)
 NewMerges(r, top) == {m \in AncSelf(top) : IsMerge(m)} \ rep[r].committed
@@ -94,7 +105,7 @@ NodeRec(c) == [n |-> c, par |-> Par(c), kind |-> dag[c].kind, prio |-> dag[c].pr
 
 ActPublish(r) ==
   /\ Len(rep[r].q) = 1 /\ Len(dag) < MaxCmds + 4
-  /\ \E k \in Kinds, rk \in (1..MaxCmds) \ UsedRanks, o \in Ops :
+  /\ \E k \in Kinds, rk \in RankChoice, o \in Ops :
        LET top == rep[r].q[1]
            c   == Len(dag) + 1
            ms  == NewMerges(r, top)
@@ -112,7 +123,7 @@ ActPublish(r) ==
                                              committed |-> rep[r].committed \cup ms \cup {c},
                                              seq |-> ApplyOp(FactsAt(top), c, o).seq, k |-> ApplyOp(FactsAt(top), c, o).k,
                                              hello |-> <<1, rk>>, stamp |-> rep[r].stamp + 1]])
-  /\ UNCHANGED <<tx, npoison, noise>>
+  /\ UNCHANGED <<tx, npoison, nbad, noise>>
 
 (* an action whose policy fails (after publishing j commands and writing facts): no trace (C07) *)
 ActFail(r) ==
@@ -120,7 +131,7 @@ ActFail(r) ==
   /\ \E j \in 0..1 :
        /\ rep' = [rep EXCEPT ![r].q = <<>>]
        /\ Record([op |-> "action_fail", r |-> r, j |-> j, res |-> "Rejected", view |-> View(r)])
-  /\ UNCHANGED <<dag, tx, npoison, noise>>
+  /\ UNCHANGED <<dag, tx, npoison, nbad, noise>>
 
 --------------------------------------------------------------------------------
 (* add_commands *)
@@ -164,7 +175,7 @@ Deliver(r, t) ==
        /\ tx' = [tx EXCEPT ![r][t] = a.x]
        /\ Record([op |-> "deliver", r |-> r, t |-> t, cmds |-> batch, res |-> a.res, count |-> a.count,
                   tips |-> SortedById(TxTips(a.x))])
-  /\ UNCHANGED <<dag, rep, npoison, noise>>
+  /\ UNCHANGED <<dag, rep, npoison, nbad, noise>>
 
 (* first contact: the graph does not exist locally; the first command must be its init *)
 DeliverInit(r, t) ==
@@ -179,7 +190,7 @@ DeliverInit(r, t) ==
                           tips |-> SortedById(TxTips(a.x))])
        ELSE /\ UNCHANGED <<rep, tx>>
             /\ Record([op |-> "deliver", r |-> r, t |-> t, cmds |-> batch, res |-> "InitError", count |-> 0, tips |-> <<>>])
-  /\ UNCHANGED <<dag, npoison, noise>>
+  /\ UNCHANGED <<dag, npoison, nbad, noise>>
 
 (* a command the policy rejects at origin, child of a command the transaction has; then
    optionally a command naming the rejected one as parent (C06) *)
@@ -191,13 +202,26 @@ DeliverPoison(r, t) ==
        /\ npoison' = npoison + 1
        /\ Record([op |-> "poison", r |-> r, t |-> t, parent |-> p, pid |-> npoison + 1, orphan |-> orphan,
                   res |-> "Rejected", res2 |-> "NoSuchParent", tips |-> SortedById(TxTips(Touch(r, t)))])
-  /\ UNCHANGED <<dag, rep, noise>>
+  /\ UNCHANGED <<dag, rep, nbad, noise>>
+
+(* C10: malformed first contacts and foreign init commands.  Shapes:
+     foreign_init   a parentless command with another id (with a policy)
+     nopolicy_init  the graph's own init id but without policy bytes      (missing graph only)
+     parented       a first command that has a parent                      (missing graph only)
+   All are refused with InitError; nothing is created or changed. *)
+DeliverBad(r, t) ==
+  /\ AllowBad /\ Steps /\ Idle(r) /\ nbad < 2
+  /\ \E shape \in (IF rep[r].exists THEN {"foreign_init"} ELSE {"foreign_init", "nopolicy_init", "parented"}) :
+       /\ nbad' = nbad + 1
+       /\ tx' = IF rep[r].exists THEN [tx EXCEPT ![r][t] = Touch(r, t)] ELSE tx   \* heads are read first
+       /\ Record([op |-> "bad", r |-> r, t |-> t, shape |-> shape, exists |-> rep[r].exists, res |-> "InitError"])
+  /\ UNCHANGED <<dag, rep, npoison, noise>>
 
 Flush(r, t) ==
   /\ Steps /\ Idle(r) /\ tx[r][t].open /\ tx[r][t].acc # {}
   /\ hist # <<>> /\ hist[Len(hist)].op # "flush"
   /\ Record([op |-> "flush", r |-> r, t |-> t])
-  /\ UNCHANGED <<dag, rep, tx, npoison, noise>>
+  /\ UNCHANGED <<dag, rep, tx, npoison, nbad, noise>>
 
 Commit(r, t) ==
   /\ Steps /\ Idle(r) /\ tx[r][t].open
@@ -214,14 +238,14 @@ Commit(r, t) ==
                 Record([op |-> "commit", r |-> r, t |-> t, res |-> "ok",
                         view |-> [exists |-> TRUE, heads |-> SortedById(H), committed |-> x.base \cup x.acc,
                                   seq |-> f.seq, k |-> f.k, hello |-> HelloId(H), stamp |-> rep[r].stamp + 1]])
-  /\ UNCHANGED <<dag, npoison, noise>>
+  /\ UNCHANGED <<dag, npoison, nbad, noise>>
 
 (* commit of a transaction that never touched the graph: returns false *)
 CommitNoop(r, t) ==
   /\ AllowNoop /\ Steps /\ Idle(r) /\ rep[r].exists /\ ~tx[r][t].open
   /\ hist # <<>> /\ hist[Len(hist)].op # "commit"
   /\ Record([op |-> "commit", r |-> r, t |-> t, res |-> "noop", view |-> View(r)])
-  /\ UNCHANGED <<dag, rep, tx, npoison, noise>>
+  /\ UNCHANGED <<dag, rep, tx, npoison, nbad, noise>>
 
 (* sync everything p has into r in one transaction and commit (makes converged pairs frequent) *)
 SyncAll(r, p) ==
@@ -242,14 +266,16 @@ SyncAll(r, p) ==
                         view |-> [exists |-> TRUE, heads |-> SortedById(H), committed |-> all,
                                   seq |-> f.seq, k |-> f.k, hello |-> HelloId(H),
                                   stamp |-> IF rep[r].exists THEN rep[r].stamp + 1 ELSE 1]])
-  /\ UNCHANGED <<dag, tx, npoison, noise>>
+  /\ UNCHANGED <<dag, tx, npoison, nbad, noise>>
 
 Next ==
   \E r \in Reps :
-     \/ ActBegin(r) \/ ActMerge(r) \/ ActPublish(r) \/ ActFail(r)
-     \/ \E t \in Txns : Deliver(r, t) \/ DeliverInit(r, t) \/ DeliverPoison(r, t) \/ Flush(r, t)
-                        \/ Commit(r, t) \/ CommitNoop(r, t)
-     \/ \E p \in Reps : SyncAll(r, p)
+     \/ (\E w \in 1..ActWeight1 : ActBegin(r))      \* TLC's simulator picks a sub-action uniformly:
+     \/ (\E w \in 1..ActWeight : ActBegin(r) /\ Cardinality(rep[r].heads) >= 2)   \* copies = weight
+     \/ ActMerge(r) \/ (\E w \in 1..PubWeight : ActPublish(r)) \/ ActFail(r)
+     \/ \E t \in Txns : Deliver(r, t) \/ DeliverInit(r, t) \/ DeliverPoison(r, t) \/ DeliverBad(r, t) \/ Flush(r, t)
+                        \/ (\E w \in 1..CommitWeight : Commit(r, t)) \/ CommitNoop(r, t)
+     \/ \E p \in Reps, w \in 1..SyncWeight : SyncAll(r, p)
 
 Spec == Init /\ [][Next]_vars
 
